@@ -19,6 +19,8 @@ mod c03;
 mod c04;
 #[cfg(all(kani, feature = "c05"))]
 mod c05;
+#[cfg(all(kani, feature = "c04t"))]
+mod c04t;
 #[cfg(all(kani, feature = "c05t"))]
 mod c05t;
 #[cfg(all(kani, feature = "c06"))]
